@@ -1,9 +1,9 @@
 import asyncio
+import codecs
 from glob import glob
 import queue
 import os
 import time
-from inspect import isawaitable
 
 from tornado import gen
 import weakref
@@ -131,6 +131,8 @@ class from_textfile(Source):
     from_end: bool
         Whether to begin streaming from the end of the file (i.e., only emit
         lines appended after the stream starts).
+    encoding: str
+        Encoding of the file when ``f`` is a file name (default 'utf-8').
 
     Examples
     --------
@@ -143,9 +145,12 @@ class from_textfile(Source):
     Stream
     """
     def __init__(self, f, poll_interval=0.100, delimiter='\n',
-                 from_end=False, **kwargs):
+                 from_end=False, encoding='utf-8', **kwargs):
         if isinstance(f, str):
-            f = open(f)
+            # read bytes and decode incrementally: text mode would rewrite \r and \r\n, and fails on a multi-byte
+            # character whose bytes arrive in two different polls
+            f = open(f, 'rb')
+        self._decoder = codecs.getincrementaldecoder(encoding)()
         self.buffer = ''
         self.file = f
         self.from_end = from_end
@@ -159,6 +164,8 @@ class from_textfile(Source):
 
     async def _run(self):
         line = self.file.read()
+        if isinstance(line, bytes):
+            line = self._decoder.decode(line)
         if line:
             self.buffer = self.buffer + line
             if self.delimiter in self.buffer:
@@ -254,9 +261,9 @@ class from_tcp(Source):
                 while not self.source.stopped:
                     try:
                         data = await stream.read_until(self.source.delimiter)
-                        result = self.source._emit(data)
-                        if isawaitable(result):
-                            await result
+                        # _emit returns the list of what the consumers hand back: wait for all of it
+                        # before reading the next record (as the other sources do)
+                        await asyncio.gather(*self.source._emit(data))
                     except StreamClosedError:
                         break
 
